@@ -108,6 +108,11 @@ def stress_programs():
         gs.Program([gs.Equation(V('C'), B('*', gs.Verb('0.5'), V('Y', -1))), gs.Equation(V('Y'), B('+', V('C'), V('G'))),
                     gs.Equation(V('K'), B('+', V('K', -1), B('*', gs.Verb("float(len('( x )'))"), E('e', 1))))]),
         gs.Program([gs.Equation(Y, I(gs.Verb('2.5'), B('>', V('X', 1), gs.Verb('(1 + 1)')), C('max', (V('Z', -2), gs.Verb('1.5')))))]),
+        # parameters / errors named like Python keywords
+        gs.Program([gs.Equation(V('B'), B('*', V('V'), B('+', P('lambda'), B('*', P('mu'), V('R')))))]),
+        gs.Program([gs.Equation(V('B'), B('-', B('+', B('*', V('V'), P('del', -1)), E('in')), E('is', 1)))]),
+        gs.Program([gs.Equation(Y, B('+', C('max', (P('None'), E('True', 1))), C('exp', (P('lambda', -2),)))),
+                    gs.Equation(V('Z'), B('*', Y, E('for')))]),
         # series named like functions
         gs.Program([gs.Equation(Y, B('+', B('*', N('2'), V('exp')), V('log', -1)))]),
         gs.Program([gs.Equation(V('Z'), B('+', B('*', P('log'), V('X')), E('exp')))]),
@@ -144,6 +149,10 @@ def all_cases(ctx):
         if i % 4 == 2:      # ... / with identifiers of up to 64+ characters (shared 32/64-character prefixes), long dotted calls
             prog2 = ec.with_long_names(rng, prog)
             cases.append(mkcase(prog2, gs.render(prog2, L), L.wrap_rhs, 'longnames', seed))
+        if i % 4 == 0:      # ... / with {parameters} and <errors> named like Python keywords
+            prog2, used = ec.with_keyword_names(rng, prog)
+            if used:
+                cases.append(mkcase(prog2, gs.render(prog2, L), L.wrap_rhs, 'kwnames', seed))
         if i % 4 == 3:      # ... / with some series renamed to function-looking names the program does not call
             prog2, used = ec.with_function_names(rng, prog)
             if used:
@@ -219,6 +228,9 @@ def observe_(case, rep):
     n_edges = 0
     m0 = b.Model(range(n))      # `self` of verbatim fragments such as len(self.span)
     shadowed = ec.shadowed_function_roots(prog)
+    kwnamed = ec.keyword_named(prog)
+    for nm in kwnamed:
+        rep.dist['series-name:keyword:' + nm] += 1
     frags = [f for st in eqs for f in ec.verbs_of(st.rhs)]
     if frags:
         rep.dist['programs-with-inline-verbatim'] += 1
@@ -247,6 +259,9 @@ def observe_(case, rep):
             env.update({nm: ec.Ser(v.copy(), None) for nm, v in data0.items()})   # a series named `exp` is `exp[t]`
             env['t'] = ec.TPos(t)
             try:
+                if kwnamed:         # `lambda[t]` is a node label, not Python
+                    rep.dist['equation-text:skipped-keyword-named-series'] += 1
+                    raise _Skip()
                 if shadowed:        # e.g. series `np` next to np.log(...): the text is not plain Python
                     rep.dist['equation-text:skipped-series-shadows-called-function-root'] += 1
                     raise _Skip()
